@@ -2,7 +2,7 @@
    Model: coq/Wire/Malformed.v (Bridge::process_event / handle_response over the codec of C10, with
    the core underneath as a parameter), coq/Wire/Codec.v (the decoder itself). *)
 From Coq Require Import String List ZArith NArith Bool.
-From Crux Require Import Wire.Codec Wire.CodecProofs Wire.Kv Wire.Malformed Wire.MalformedProofs Wire.MalCases.
+From Crux Require Import Wire.Codec Wire.CodecProofs Wire.Kv Wire.Malformed Wire.MalformedProofs Wire.MalformedFlat Wire.MalCases.
 From Crux Require Import Gen.Registry_kvapp Gen.Registry_malapp Gen.Registry_zoo Gen.Registry_protocol.
 Import ListNotations.
 
@@ -126,6 +126,14 @@ Theorem C12_no_zst_seq_zoo : no_zst_seq Registry_zoo = true.
 Proof. vm_compute. reflexivity. Qed.
 Theorem C12_no_zst_seq_protocol : no_zst_seq Registry_protocol = true.
 Proof. vm_compute. reflexivity. Qed.
+
+(* ([no_zst_seq] looks sizes up along the dependency order; for a well-formed registry that is the
+   same as the global reading: every registered container passes the check with the global sizes,
+   i.e. every sequence / map anywhere in it has elements of at least one byte - the premise of
+   C12_seq_attempts_bounded) *)
+Theorem C12_no_zst_seq_flat : forall reg, wf_registry reg = true -> no_zst_seq reg = true ->
+  forall n c, lookup reg n = Some c -> cseq_ok (rmin reg) c = true.
+Proof. exact no_zst_seq_flat. Qed.
 
 (* ... a string / byte-buffer length larger than what is left is refused before anything is taken, and
    what is taken is part of the input, ... *)
